@@ -32,6 +32,7 @@ Dispatch ==
   \/ A = "PollAll" /\ PollAll
   \/ A = "DestroyObservable" /\ DestroyObservable(Line.arg.o)
   \/ A = "DestroyObserver" /\ DestroyObserver(Line.arg.b)
+  \/ A = "Teardown" /\ Teardown(Line.arg.order)
 
 Guard ==
   CASE A = "CreateObservable" -> CanCreateObservable(Line.arg.o)
@@ -41,6 +42,7 @@ Guard ==
     [] A = "PollAll" -> CanPollAll
     [] A = "DestroyObservable" -> CanDestroyObservable(Line.arg.o)
     [] A = "DestroyObserver" -> CanDestroyObserver(Line.arg.b)
+    [] A = "Teardown" -> CanTeardown(Line.arg.order)
     [] OTHER -> TRUE
 
 TInit == Init /\ l = 1
